@@ -195,6 +195,10 @@ def dumpInto (o : GObj) (buf : Bytes) : Outcome (Int × Bytes) :=
     if e.length > buf.length then .fault (.oobWrite "dump buffer" e.length buf.length)
     else .ok (e.length, e ++ buf.drop e.length)
 
+/-- the structs are public and there is no setter for the frame-control flag octet: a caller stores into it directly
+(`obj.frame_header.frame_control.flags`); the serialisers copy the header as it is -/
+def setFcFlags (o : GObj) (n : Nat) : GObj := { o with fc := [o.fc.getD 0 0, UInt8.ofNat n] }
+
 inductive GEdit
   | tag (op : TagOp)
   | detail (data : Bytes)
